@@ -6,6 +6,7 @@ Translated, from the CURRENT source text (stdlib `ast` only, nothing of cogent3 
     pairwise_distance_numba.fill_diversity_matrix   (the loop body becomes a step function folded over the columns)
     fast_distance._hamming, _jc69_from_matrix, _tn93_from_matrix, _logdetcommon, _paralinear, _logdet
     fast_distance.get_matrix_diff_coords            (a list comprehension)
+    fast_distance._PairwiseDistance._expand         (dict / list loops -> folds: `expand_`)
     fast_distance.TN93Pair.__init__                 (the coordinate constants handed to _tn93_from_matrix: `tn93_func_args`)
 
 Each numpy operation is mapped to ONE primitive of lean/CogentModel/Model/DistanceNumpy.lean (4x4 matrices, exact
@@ -560,6 +561,174 @@ def translate_diff_coords(fdef: ast.FunctionDef) -> str:
 
 
 # --------------------------------------------------------------------------
+# _PairwiseDistance._expand: dict / list loops -> folds
+# --------------------------------------------------------------------------
+class _Expand:
+    """Imperative fragment: `for` loops whose body updates exactly ONE container become `foldl` with that container as the
+    accumulator; `continue` returns the accumulator; `d[k] = v` on the name-pair dict of Stats is `dictSet`, on a plain
+    dict is `pyDictSet` (insertion-ordered association list); `d.get(key, None)` is `(dictGet d key).getD Stat.invalid`
+    (None and the all-None Stats are both `Stat.invalid` in the model); the literal 0 stored as a distance is `Stat.zero`.
+    Names are sequence indices.  `self.duplicated` is an insertion-ordered list of (key, list) entries; `for k in D` binds the
+    entry, `D[k]` inside that loop is the entry's list."""
+
+    TY = {"D": "Dict", "PD": "List (Nat × Nat)", "NL": "List Nat", "N": "Nat", "ST": "Stat"}
+
+    def __init__(self):
+        self.n = 0
+
+    def sattr(self, n):
+        return n.attr if isinstance(n, ast.Attribute) and isinstance(n.value, ast.Name) and n.value.id == "self" else None
+
+    def ex(self, n, env):
+        a = self.sattr(n)
+        if a == "duplicated":
+            return "DUP", "duplicated"
+        if a == "names":
+            return "NL", "names_"
+        if isinstance(n, ast.Name):
+            if n.id not in env:
+                raise Unsupported(f"_expand: unknown name {n.id}")
+            return env[n.id]
+        if isinstance(n, ast.Constant) and n.value == 0 and not isinstance(n.value, bool):
+            return "ST", "Stat.zero"
+        if isinstance(n, ast.Tuple) and len(n.elts) == 2:
+            (ta, a1), (tb, b1) = self.ex(n.elts[0], env), self.ex(n.elts[1], env)
+            if ta == tb == "N":
+                return "KEY", f"({a1}, {b1})"
+            raise Unsupported("_expand: key tuple")
+        if isinstance(n, ast.Subscript):
+            t, v = self.ex(n.value, env)
+            if t == "NL" and isinstance(n.slice, ast.Slice) and n.slice.lower is None and n.slice.upper is None and n.slice.step is None:
+                return "NL", v
+            if t == "DUP" and isinstance(n.slice, ast.Name) and isinstance(env.get("#dupkey"), tuple) and env["#dupkey"][0] == n.slice.id:
+                return "NL", f"{env['#dupkey'][1]}.2"
+            raise Unsupported("_expand: subscript")
+        if isinstance(n, ast.Call) and isinstance(n.func, ast.Attribute) and not n.keywords:
+            t, v = self.ex(n.func.value, env)
+            if n.func.attr == "get" and t == "D" and len(n.args) == 2 and isinstance(n.args[1], ast.Constant) and n.args[1].value is None:
+                tk, k = self.ex(n.args[0], env)
+                if tk == "KEY":
+                    return "ST", f"(dictGet {v} {k}).getD Stat.invalid"
+            if n.func.attr == "items" and t == "PD" and not n.args:
+                return "ITEMS", v
+            raise Unsupported(f"_expand: method .{n.func.attr}")
+        raise Unsupported(f"_expand: expression {type(n).__name__}")
+
+    def cond(self, n, env):
+        if isinstance(n, ast.Compare) and len(n.ops) == 1 and isinstance(n.ops[0], (ast.Eq, ast.NotEq)):
+            (ta, a), (tb, b) = self.ex(n.left, env), self.ex(n.comparators[0], env)
+            if ta == tb == "N":
+                return f"{a} {'=' if isinstance(n.ops[0], ast.Eq) else '≠'} {b}"
+        if isinstance(n, ast.UnaryOp) and isinstance(n.op, ast.Not) and self.sattr(n.operand) == "duplicated":
+            return "duplicated.isEmpty"  # None or an empty dict
+        raise Unsupported("_expand: condition")
+
+    @staticmethod
+    def stores(stmts):
+        out = set()
+        for st in stmts:
+            for nd in ast.walk(st):
+                if isinstance(nd, ast.Assign):
+                    for t in nd.targets:
+                        if isinstance(t, ast.Subscript) and isinstance(t.value, ast.Name):
+                            out.add(t.value.id)
+        return out
+
+    def block(self, stmts, env, tail, ind):
+        """tail: env -> lines, when the list is exhausted (loop body: the accumulator)"""
+        p = "  " * ind
+        if not stmts:
+            return [p + x for x in tail(env)]
+        s, rest = stmts[0], stmts[1:]
+        if isinstance(s, ast.Expr) and isinstance(s.value, ast.Constant) and isinstance(s.value.value, str):
+            return self.block(rest, env, tail, ind)
+        if isinstance(s, ast.Return):
+            t, v = self.ex(s.value, env)
+            if t != "D":
+                raise Unsupported("_expand: returns a non-dict")
+            return [p + v]
+        if isinstance(s, ast.Continue):
+            if "#acc" not in env:
+                raise Unsupported("_expand: continue outside a loop")
+            return [p + env["#acc"]]
+        if isinstance(s, ast.If):
+            c = self.cond(s.test, env)
+            return ([f"{p}if {c} then"] + self.block(list(s.body) + rest, env, tail, ind + 1)
+                    + [f"{p}else"] + self.block(list(s.orelse) + rest, env, tail, ind + 1))
+        if isinstance(s, ast.Assign):
+            if len(s.targets) == 1 and isinstance(s.targets[0], ast.Name):
+                nm = s.targets[0].id
+                env2 = dict(env)
+                if isinstance(s.value, ast.Dict) and not s.value.keys:
+                    env2[nm] = ("PD", lname(nm))
+                    return [f"{p}let {lname(nm)} : List (Nat × Nat) := []"] + self.block(rest, env2, tail, ind)
+                t, v = self.ex(s.value, env)
+                if t not in self.TY:
+                    raise Unsupported(f"_expand: assignment of {t}")
+                env2[nm] = (t, lname(nm))
+                return [f"{p}let {lname(nm)} : {self.TY[t]} := {v}"] + self.block(rest, env2, tail, ind)
+            if all(isinstance(t, ast.Subscript) and isinstance(t.value, ast.Name) for t in s.targets):
+                tv, v = self.ex(s.value, env)
+                lines = []
+                for t in s.targets:  # Python assigns the targets left to right
+                    td, d = self.ex(t.value, env)
+                    tk, k = self.ex(t.slice, env)
+                    if td == "D" and tk == "KEY" and tv == "ST":
+                        lines.append(f"{p}let {d} : Dict := dictSet {d} {k} {v}")
+                    elif td == "PD" and tk == "N" and tv == "N":
+                        lines.append(f"{p}let {d} : List (Nat × Nat) := pyDictSet {d} {k} {v}")
+                    else:
+                        raise Unsupported(f"_expand: store {td}[{tk}] = {tv}")
+                return lines + self.block(rest, env, tail, ind)
+        if isinstance(s, ast.For) and not s.orelse:
+            acc = self.stores(s.body)
+            if len(acc) != 1:
+                raise Unsupported(f"_expand: loop at line {s.lineno} updates {sorted(acc)} (exactly one container expected)")
+            acc = acc.pop()
+            ta, av = self.ex(ast.Name(id=acc, ctx=ast.Load()), env)
+            ti, it = self.ex(s.iter, env)
+            env2 = dict(env)
+            env2["#acc"] = av
+            self.n += 1
+            head = []
+            if ti == "DUP" and isinstance(s.target, ast.Name):
+                el = f"kv{self.n}"
+                env2[s.target.id] = ("N", lname(s.target.id))
+                env2["#dupkey"] = (s.target.id, el)
+                head = [f"let {lname(s.target.id)} : Nat := {el}.1"]
+            elif ti == "NL" and isinstance(s.target, ast.Name):
+                el = lname(s.target.id)
+                env2[s.target.id] = ("N", el)
+            elif ti == "ITEMS" and isinstance(s.target, ast.Tuple) and len(s.target.elts) == 2 and all(isinstance(e, ast.Name) for e in s.target.elts):
+                el = f"item{self.n}"
+                for i, e in enumerate(s.target.elts):
+                    env2[e.id] = ("N", lname(e.id))
+                    head.append(f"let {lname(e.id)} : Nat := {el}.{i + 1}")
+            else:
+                raise Unsupported(f"_expand: loop over {ti}")
+            body = self.block(list(s.body), env2, lambda e: [av], ind + 2)
+            return ([f"{p}let {av} : {self.TY[ta]} := {it}.foldl (fun {av} {el} =>"] + ["  " * (ind + 2) + h for h in head] + body
+                    + [f"{p}    ) {av}"] + self.block(rest, env, tail, ind))
+        raise Unsupported(f"_expand: statement {type(s).__name__} at line {getattr(s, 'lineno', '?')}")
+
+
+def translate_expand(fdef: ast.FunctionDef) -> str:
+    args = [a.arg for a in fdef.args.args]
+    if args != ["self", "pwise"]:
+        raise Unsupported(f"_expand parameters {args}")
+    tr = _Expand()
+
+    def fall(_e):
+        raise Unsupported("_expand falls off the end without a return")
+
+    lines = tr.block(list(fdef.body), {"pwise": ("D", "pwise")}, fall, 1)
+    return (
+        "/-- `_PairwiseDistance._expand` (`duplicated`: the entries of `self.duplicated` in insertion order, `names_` = `self.names`) -/\n"
+        "def expand_ (duplicated : List (Nat × List Nat)) (names_ : List Nat) (pwise : Dict) : Dict :=\n" + "\n".join(lines)
+    )
+
+
+# --------------------------------------------------------------------------
 # TN93Pair.__init__: the constants handed to _tn93_from_matrix
 # --------------------------------------------------------------------------
 def translate_tn93_init(cdef: ast.ClassDef) -> str:
@@ -715,6 +884,15 @@ def translate(src: Path):
             parts.append(translate_tn93_init(cls[0]))
         except Unsupported as e:
             problems.append(f"TN93Pair.__init__: {e}")
+    base = [n for n in ast.parse((src / "evolve" / "fast_distance.py").read_text()).body if isinstance(n, ast.ClassDef) and n.name == "_PairwiseDistance"]
+    exp = [m for c in base for m in c.body if isinstance(m, ast.FunctionDef) and m.name == "_expand"]
+    if len(exp) != 1:
+        problems.append("fast_distance.py: _PairwiseDistance._expand not found")
+    else:
+        try:
+            parts.append(translate_expand(exp[0]))
+        except Unsupported as e:
+            problems.append(f"_expand: {e}")
     known = {}
     for name in ORDER:
         if name not in fd:
